@@ -2,6 +2,7 @@ package main
 
 import (
 	"fmt"
+	"os"
 	"go/constant"
 	"go/token"
 	"go/types"
@@ -1201,3 +1202,7 @@ func blockReachesB(from, to *ssa.BasicBlock) bool {
 	}
 	return false
 }
+
+func osEnviron() []string { return os.Environ() }
+
+func typesPointer(t types.Type) types.Type { return types.NewPointer(t) }
